@@ -1,13 +1,16 @@
 """C12 — type-checking verdicts survive meaning-preserving edits.
 
-Stream c12.edits: seeded, type-directed programs (methods with typed returns, generator methods, locals,
-literals, closures `-> e`, closures with parameters / block bodies / explicit returns, calls, arithmetic,
-if / while / do-catch / throw, prints), a part of them with one injected type error, and for each program a
-set of edits: an unused local (value or closure initialiser) inserted before a statement of any block, a local
-renamed consistently, a sub-expression parenthesised, the method definitions permuted.  Oracle 1
-(metamorphic, on the real elk): verdict, number of diagnostics and stdout of the edited program equal the
-original's.  Oracle 2: for programs inside the fragment of Model/C12_Checker.v ("core" programs) the verdict
-of the extracted checker model (fixed register handling) equals elk's, for the original and every edit.
+Stream c12.edits: seeded, type-directed programs of three families - core (the fragment of Model/C12_Checker.v), scoped
+(the fragment of Model/C12_Scopes.v: throw signatures, throw, do/catch, closures with parameters / return type / declared
+or inferred throw type, calls of throwing methods and closures; generated well-typed by tracking the catch-scope stack),
+extended (generator methods, arithmetic, if / while / do-catch / throw, block closures with explicit returns, prints) -,
+a part of them with one injected error, and for each program a set of edits: an unused local (value or one of seven kinds
+of closure literal, among them closures that carry their OWN catch scope: throw signature, do/catch inside, nested
+throw-annotated closure) inserted before a statement of any block (method body, if/else, loop, do body, catch handler,
+closure body, top level), a local renamed consistently, a sub-expression parenthesised, the method definitions permuted.
+Oracle 1 (metamorphic, on the real elk): verdict, number of diagnostics and stdout of the edited program equal the
+original's.  Oracle 2: for programs inside a model fragment the verdict of the extracted checker models (fixed register
+handling) equals elk's, for the original and every edit.
 
 AST (Python lists):
   expr  ['lit', ty, text] | ['var', x] | ['clos', e] | ['par', e] | ['call', f] | ['meth', m]
